@@ -272,17 +272,20 @@ def superWalk (c : Core) (item : Nat) : Nat → Option Nat → Walk
 /-! ## operations, hooks, tasks -/
 
 inductive Hook where
-  | create | init | mod | act
+  | create | init | mod | act | id
   deriving DecidableEq, Repr
 
 def Hook.str : Hook → String
-  | .create => "create" | .init => "init" | .mod => "mod" | .act => "act"
+  | .create => "create" | .init => "init" | .mod => "mod" | .act => "act" | .id => "id"
 
 /-- what a scripted LPC object can do (harness/mudlib/c08/obj.c: do_op) -/
 inductive Op where
   | ld (b : Base)            -- load_object("/c08/..")
   | cl (b : Base)            -- clone_object("/c08/..")
   | mv (a d : Nat)           -- a->x_mv(d): move_object(d) executed by a
+  | mvs (a : Nat) (b : Base) -- a->x_mvs("/c08/.."): move_object(string) executed by a (the destination is loaded on demand)
+  | pr (e t : Nat)           -- present("o<t>", e): e's inventory is searched by calling id("o<t>") in every member
+  | fis (b : Base)           -- first_inventory("/c08/..") (the object is loaded on demand)
   | de (a : Nat)             -- destruct(a)
   | ec (a : Nat)             -- a: enable_commands()
   | dc (a : Nat)             -- a: disable_commands()
@@ -357,8 +360,10 @@ inductive Task where
   | hook (x : Nat) (k : Hook) (arg : Option Nat)           -- apply(create|init|move_or_destruct, x); arg = this_player()/dest
   | load (b : Base)                                        -- find_or_load_object
   | clone (b : Base)                                       -- clone_object
-  | move (item dest : Nat)                                 -- f_move_object + move_object
+  | move (item dest : Nat)                                 -- f_move_object (object argument) + move_object
+  | moveStr (item : Nat) (b : Base)                        -- f_move_object with a string argument
   | fan (item dest : Nat) (cur : Option Nat) (save : Option Nat)  -- the `for (ob = dest->contains; ob; ob = next_ob)` loop; save_cmd
+  | present (env tgt : Nat) (cur : Option Nat)             -- object_present2: the `for (; ob; ob = ob->next_inv)` loop
   | command (a : Nat) (verb : String)                      -- process_command(verb, a) + user_parser
   | destruct (ob : Nat)                                    -- destruct_object
   | dloop (ob : Nat) (sup0 : Option Nat) (saveR : Option Nat)  -- its `while (ob->contains)` loop
@@ -372,6 +377,9 @@ def errDestGone := "*The destination to move to was destructed at call of init()
 def errRestrict := "*Only this_object() can be destructed from move_or_destruct."
 def errBadFile := "*Error in loading object '/c08/bad':"
 def errBoom := "*boom"
+def errFis (b : Base) : String :=
+  "Bad argument 1 to first_inventory(), Expected: string or object Got: \"/" ++ b.str ++ "\"."
+def errNoDest := "move_object failed: could not find destination"
 
 /-- the interpreter; every call decreases the fuel -/
 def exec (sc : Scripts) : Nat → Task → World → R
@@ -401,6 +409,25 @@ def exec (sc : Scripts) : Nat → Task → World → R
             (exec sc f (.move a d) (emit w s!"mvb {oid a} {oid d}")).andThen fun w _ =>
               { w := emit w s!"r mv {oid a} {oid d} ok" }
           | _, _ => { w := emit w s!"r mv {oid a} {oid d} !gone" }
+        | .mvs a b =>
+          match readRef w.c a with
+          | some a =>
+            (exec sc f (.moveStr a b) (emit w s!"mvsb {oid a} {b.str}")).andThen fun w _ =>
+              -- x_mvs returns environment() after the move
+              { w := emit w s!"r mvs {oid a} {b.str} ok {roid w.c self ((w.c.objs a).super.bind (readRef w.c))}" }
+          | none => { w := emit w s!"r mvs {oid a} {b.str} !gone" }
+        | .pr e t =>
+          -- f_present(string, object): a destructed environment gives 0
+          match readRef w.c e with
+          | none => { w := emit w s!"r pr {oid e} {oid t} !gone" }
+          | some e =>
+            (exec sc f (.present e t (w.c.objs e).contains.head?) w).andThen fun w v =>
+              { w := emit w s!"r pr {oid e} {oid t} {roid w.c self (v.bind (readRef w.c))}" }
+        | .fis b =>
+          (exec sc f (.load b) w).andThen fun w v =>
+            match v with
+            | none => raise w (errFis b)
+            | some d => { w := emit w s!"r fis {b.str} {roid w.c self ((w.c.objs d).contains.head?.bind (readRef w.c))}" }
         | .de a =>
           match readRef w.c a with
           | some a =>
@@ -549,6 +576,13 @@ def exec (sc : Scripts) : Nat → Task → World → R
                 if (w0.c.objs item).ec ∧ ((w1.c.objs dest).destructed ∨ (w1.c.objs item).super ≠ some dest) then
                   { w := { w1 with cg := saveCg } }
                 else exec sc f (.fan item dest (w1.c.objs dest).contains.head? saveCg) w1
+    | .moveStr item b =>
+      -- f_move_object: the destination is resolved (and loaded: its create() runs) FIRST, then current_object is
+      -- tested for O_DESTRUCTED (the first thing `.move` does), then move_object()
+      (exec sc f (.load b) w).andThen fun w v =>
+        match v with
+        | none => raise w errNoDest
+        | some d => exec sc f (.move item d) w
     | .fan item dest cur saveCg =>
       match cur with
       | none =>
@@ -580,6 +614,18 @@ def exec (sc : Scripts) : Nat → Task → World → R
                 r2.andThen fun w2 _ =>
                   if (w1.c.objs item).ec ∧ (w2.c.objs item).super ≠ some dest then { w := { w2 with cg := saveCg } }
                   else exec sc f (.fan item dest next saveCg) w2
+    | .present env tgt cur =>
+      match cur with
+      | none => { w := w, val := none }
+      | some ob =>
+        if ¬ (ob < w.c.n) ∨ (w.c.objs ob).freed then crashR w "object_present2"
+        else
+          (exec sc f (.hook ob .id none) w).andThen fun w1 _ =>
+            if (w1.c.objs ob).destructed then { w := w1, val := none }
+            -- fix: C08-F3 - id() moved ob out of the searched inventory
+            else if (w1.c.objs ob).super ≠ some env then { w := w1, val := none }
+            else if ob = tgt then { w := w1, val := some ob }
+            else exec sc f (.present env tgt (nextInv w1.c ob)) w1
     | .command a verb =>
       -- command_for_object / process_command / user_parser (the action functions of the harness return 1)
       if ¬ (a < w.c.n) ∨ (w.c.objs a).freed then crashR w "command: not an object"
